@@ -502,6 +502,62 @@ theorem datagram_failed_consumes_nothing (s : Sock) (hc : s.closed = false) (buf
     (bag bag' : Bag) (hk : bagTrace bag r.tr bag') : bag' = bag :=
   datagram_failed_keeps_queue s hc buflen h0 script e r h pe herr bag bag' hk
 
+/-! ## translator ties T6 / T7: the loops and flags of the model are the loops and flags of the source
+
+`tools/extract.py` matches the whole body of every function with a retry loop against the statement shape
+`ioLoop` / `pollLoop` / `connLoop` transliterate (anything else is refused) and records the constants in the
+holes of that shape; here they are compared with the constants the model uses. -/
+
+/-- every retry loop: wait for the right condition, retry on `EINTR`, retry on the library's would-block class
+    (blocking mode), report everything else with the function's failure value -/
+theorem loop_skeletons_as_modelled :
+    ioLoops = [("receive", P_SOCKET_IO_CONDITION_POLLIN, EINTR, P_ERROR_IO_WOULD_BLOCK, -1),
+               ("receiveFrom", P_SOCKET_IO_CONDITION_POLLIN, EINTR, P_ERROR_IO_WOULD_BLOCK, -1),
+               ("send", P_SOCKET_IO_CONDITION_POLLOUT, EINTR, P_ERROR_IO_WOULD_BLOCK, -1),
+               ("sendTo", P_SOCKET_IO_CONDITION_POLLOUT, EINTR, P_ERROR_IO_WOULD_BLOCK, -1),
+               ("accept", P_SOCKET_IO_CONDITION_POLLIN, EINTR, P_ERROR_IO_WOULD_BLOCK, 0)] ∧
+    pollLoopFacts = [-1, 1, EINTR, 1, 0] ∧
+    connLoopFacts = [EINTR, P_ERROR_IO_WOULD_BLOCK, P_ERROR_IO_IN_PROGRESS, P_SOCKET_IO_CONDITION_POLLOUT] := by
+  decide
+
+/-- the kernel contract of `stream_integrity` / `datagram_exact` (`pipeRecvOk`: received bytes are *removed*;
+    `pipeSendOk`: bytes are appended in order) is the contract of `recv` / `send` with exactly these flags:
+    no `MSG_PEEK` / `MSG_OOB` / `MSG_WAITALL` …, and nothing but `MSG_NOSIGNAL` on the sending side -/
+theorem data_call_flags_exact :
+    recvFlags = 0 ∧ recvfromFlags = 0 ∧ sendFlags = MSG_NOSIGNAL ∧ sendtoFlags = MSG_NOSIGNAL := by
+  decide
+
+/-- "fails for a real reason": the only native code the library classifies as would-block (and therefore retries
+    in blocking mode) is `EAGAIN` (= `EWOULDBLOCK`); every other failure of a data call is reported -/
+theorem would_block_is_only_EAGAIN (e : Int) (h : ioFromSystem e = P_ERROR_IO_WOULD_BLOCK) : e = EAGAIN := by
+  unfold ioFromSystem at h
+  have key : ∀ (l : List (Int × Int)), (∀ p ∈ l, p.2 = P_ERROR_IO_WOULD_BLOCK → p.1 = EAGAIN) →
+      (l.lookup e).getD errnoDefault = P_ERROR_IO_WOULD_BLOCK → e = EAGAIN := by
+    intro l
+    induction l with
+    | nil => intro _ h; simp only [List.lookup, Option.getD_none] at h; exact absurd h (by decide)
+    | cons p t ih =>
+      intro hall h
+      obtain ⟨a, b⟩ := p
+      by_cases hea : e = a
+      · subst hea
+        simp only [List.lookup, beq_self_eq_true, Option.getD_some] at h
+        exact hall (e, b) (by simp) h
+      · have : (e == a) = false := by simpa using hea
+        simp only [List.lookup, this] at h
+        exact ih (fun p hp => hall p (by simp [hp])) h
+  exact key errnoTable (by decide) h
+
+/-- … and `EINTR` / `EAGAIN` themselves are classified as the model's loops assume -/
+theorem retry_codes_classified :
+    ioFromSystem EAGAIN = P_ERROR_IO_WOULD_BLOCK ∧ ioFromSystem EWOULDBLOCK = P_ERROR_IO_WOULD_BLOCK ∧
+    ioFromSystem EINTR ≠ P_ERROR_IO_WOULD_BLOCK ∧ ioFromSystem EINPROGRESS = P_ERROR_IO_IN_PROGRESS := by
+  decide
+
+example : dataStep { blocking := true, poll := .poll 5 1 (-1) 1, call := .recv 5 0 4 0, failMsg := "x" } { sys := .recv, ret := .err ENOTCONN }
+    = .fail { code := P_ERROR_IO_NOT_CONNECTED, native := ENOTCONN, msg := "x" } ENOTCONN := by decide
+
+
 /-! ## exported for C19 (blocking calls are transparent to signal interruptions)
 
 EINTR alone (no would-block): the same equalities, cited by the C19 check under these names. -/
